@@ -446,7 +446,8 @@ SPEC = PropSpec(
                  "floating-point rounding of calibration results."
                  ' Polynomials and enumerations are also evaluated as declared in a document (repeated exponents summed; enumeration values beyond 2**53, zero, all-ones).'
                  ' Splines are also evaluated as declared in a document with <SplinePoint> attributes in any order; listed enumeration values with empty or false-looking labels, and negative values on every signed spelling, map to their labels; R8.e2: the second end-to-end document of C01, also with DEBUG logging switched on.'
-                 ' R8.e3: the hand-written document of R1.e3 (contexts with different numbers of comparisons: the first in document order that tests true wins; time encodings: scale*raw + offset).'),
+                 ' R8.e3: the hand-written document of R1.e3 (contexts with different numbers of comparisons: the first in document order that tests true wins; time encodings: scale*raw + offset).'
+                 ' R8.sel: a calibrator that applies but cannot calibrate (spline without extrapolation, value outside its points) fails with a calibration error instead of falling through; R8.spline the four xs:boolean spellings of extrapolate.'),
     rule_doc="one obligation per family/configuration; each covers all its ordering classes / match subsets",
     assumptions=["CPython float arithmetic (executed natively on extracted expressions)",
                  "criteria evaluation is correct (C06)", "the raw integer read is correct (C03/C04)"],
